@@ -86,7 +86,13 @@ class Collector:
         for r in res.get("rules", []) or []:
             self.fired["spec:" + r] += 1
         for v in res.get("viols", []) or []:
-            self.run.witness(v["fingerprint"], dict(v["witness"], opts=case.get("opts"), case_idx=case.get("idx")))
+            w = dict(v["witness"], opts=case.get("opts"), case_idx=case.get("idx"))
+            if "block" in case and "block" not in w:
+                try:
+                    w["block"] = evm.to_plain_string([tuple(x) for x in case["block"]])
+                except Exception:
+                    w["block"] = case["block"]
+            self.run.witness(v["fingerprint"], w)
         if res.get("sample"):
             self.run.add_sample(res["sample"])
         self.custom(idx, case, res)
